@@ -337,3 +337,32 @@ PROPS["C09"] = {
         {"pkg": MD, "func": "VerifH_C09_query_canonical", "replay_repeat": 400, "covers": ["several-keys"]},
     ],
 }
+
+ARCH_MODELS = dict(DEFAULT_MODELS)
+ARCH_MODELS.update({
+    "(*net/http.Client).Do": VM + "HTTPClientDo",
+    "github.com/gabriel-vasile/mimetype.Detect": VM + "MIMEDetect",
+    "(*github.com/gabriel-vasile/mimetype.MIME).Parent": VM + "MIMEParent",
+    "(*github.com/gabriel-vasile/mimetype.MIME).Is": VM + "MIMEIs2",
+    "(*github.com/gabriel-vasile/mimetype.MIME).String": VM + "MIMEString2",
+    "github.com/CorentinB/warc/pkg/spooledtempfile.NewSpooledTempFile": VM + "NewSpooledTempFile",
+    "net/http.NewRequest": VM + "HTTPNewRequest",
+    Z + "/pkg/models.URLToString": VM + "URLToStringQ",
+})
+PROPS["C02"] = {
+    "level": "model_checking",
+    "explanation": "Zeno's side of the WARC guarantee: (1) the discard hook chain the archiver installs, executed on symbolic status / header / --warc-discard-status lists, rejects exactly what the policy names; "
+                   "(2) the real ProcessBody/copyWithTimeout*/io.Copy* code, on scripted bodies around the 2 KB sniff window, reads every successfully processed body to EOF and closes it on all paths; "
+                   "(3) the real archive() retry loop against a scripted server archives an item only after a completely processed response, drains and closes every response it obtained and makes at most max-retry+1 attempts.",
+    "bounds": "status 100..599 symbolic, discard list <=2 symbolic codes; bodies of <=3 reads with sizes {1,7,2048,2100}, read error or EOF, 3 MIME classes, spool failure; archive: max-retry 0..2, per attempt {200,404,503,429,403(+challenge),transport error}, body failure, sync/async WARC writing",
+    "outside": "byte-exact, complete, individually decompressible WARC records and digests: CorentinB/warc (dialer tee, record builder, writer goroutines) - not encoded; that the library signals the feedback channel only after the record is on disk is its documented contract, assumed",
+    "assumptions": COMMON_ASSUME + ["http.Client.Do is a scripted server; in synchronous mode a token arrives on the request's feedback channel once the body was read to EOF or closed",
+                                    "mimetype.Detect returns one MIME object whose String/Is/Parent facts are chosen by the harness; spooled temp file = counter of bytes written, may fail"],
+    "models": ARCH_MODELS,
+    "stub_pkgs": DEFAULT_STUBS + [STATS],
+    "harnesses": [
+        {"pkg": "internal/pkg/archiver/discard", "func": "VerifH_C02_discard_policy", "covers": ["discarded", "kept", "cloudflare-challenge"]},
+        {"pkg": AR, "func": "VerifH_C02_process_body", "opts": {"max_steps": 50000000, "unwind": 70000}, "covers": ["body-ok", "body-error", "spooled", "handed-to-postprocessing"]},
+        {"pkg": AR, "func": "VerifH_C02_archive", "opts": {"max_steps": 50000000, "unwind": 70000}, "covers": ["retries-exhausted", "archived", "sync-write-awaited"]},
+    ],
+}
